@@ -165,7 +165,11 @@ def cli_luafmt(src, indent, overwrite, case):
             return None, err or rc, (open(path, 'rb').read() == before and (overwrite or not os.path.exists(outp)))
         if not os.path.exists(outp):
             raise Violation('`p8tool luafmt` returned 0 but wrote no file', case, 'cli')
-        return reffmt.read_p8(open(outp, 'rb').read())['code'], None, True
+        try:
+            return reffmt.read_p8(open(outp, 'rb').read())['code'], None, True
+        except reffmt.FormatError as e:
+            raise Violation('the cart written by `p8tool luafmt` is not readable by the reference .p8 reader: %s -- '
+                            'source %s' % (e, show(src, 160)), case, 'cli-unreadable')
 
 
 def build_valid(seed, avoid=()):
